@@ -352,6 +352,59 @@ fn structured(ctx: &Ctx) -> Stats {
     if fw::should_stop() {
         return total;
     }
+    // ISO-2022-JP: every sequence of up to 4 (thorough: 5) atoms - whole escapes, escape prefixes,
+    // a two-byte character, error bytes - because the decoder's flags (output flag, pending
+    // prepended byte) only matter three or four tokens later
+    {
+        let atoms: Vec<Vec<u8>> = crate::hist::atoms(Algo::Iso2022Jp);
+        let na = atoms.len();
+        let depth = if thorough { 5 } else { 4 };
+        let st = par_run(ctx, na * na, |part, st| {
+            let mut drv = DecDriver::new();
+            let mut v: Vec<u8> = Vec::with_capacity(32);
+            let mut idx = vec![0usize; depth];
+            let total = (na + 1).pow((depth - 2) as u32);
+            for rest in 0..total {
+                // sequences [a0, a1, x2.., x(depth-1)] and all their prefixes of length >= 2
+                let mut r = rest;
+                for d in 2..depth {
+                    idx[d] = r % (na + 1);
+                    r /= na + 1;
+                }
+                if r != 0 {
+                    continue;
+                }
+                idx[0] = part / na;
+                idx[1] = part % na;
+                v.clear();
+                let mut ended = false;
+                let mut ok = true;
+                for d in 0..depth {
+                    if idx[d] == na {
+                        ended = true;
+                        continue;
+                    }
+                    if ended {
+                        ok = false; // an atom after the terminator: not a canonical encoding of a shorter sequence
+                        break;
+                    }
+                    v.extend_from_slice(&atoms[idx[d]]);
+                }
+                if !ok {
+                    continue;
+                }
+                record(ISO_2022_JP, Algo::Iso2022Jp, &v, &mut drv, st, true, "2022-atom-sequences");
+                if fw::should_stop() {
+                    return;
+                }
+            }
+        });
+        total.merge(st);
+        total.exhaustive.push(format!("ISO-2022-JP: every sequence of 2..={} of the {} atoms (5 escapes, ESC, ESC $, ESC (, a two-byte character, 5C, 0E, 80, 21, 7F, ASCII)", depth, na));
+        if fw::should_stop() {
+            return total;
+        }
+    }
     // ISO-2022-JP: in each output state all (margin-extended) lead/trail pairs
     let escs: [&[u8]; 5] = [b"\x1B(B", b"\x1B(J", b"\x1B(I", b"\x1B$@", b"\x1B$B"];
     let st = par_run(ctx, 5 * 98, |part, st| {
